@@ -159,19 +159,23 @@ Definition sel_plane_tol (tol : Q) (m : mesh) (a : nat) (v : option Q) : res mes
   do m' <- mesh_by_cell r' (remove_nth a (cell m));
   set_subregions_tol tol m' subs'.
 
-(* kept iff the open intervals overlap:  not (smin >= max_val or min_val >= smax) *)
-Definition range_keeps (a : nat) (min_val max_val : Q) (r : region) : bool :=
-  negb (Qle_bool max_val (nth a (pmin r) 0) || Qle_bool (nth a (pmax r) 0) min_val).
+(* kept iff the subregion overlaps the selection by more than half a cell (selection and
+   subregions lie on the cell lattice, so overlaps are whole cells or nothing):
+   not (smin >= max_val - step or min_val + step >= smax) *)
+Definition range_keeps (a : nat) (step min_val max_val : Q) (r : region) : bool :=
+  negb (Qle_bool (max_val - step) (nth a (pmin r) 0) || Qle_bool (nth a (pmax r) 0) (min_val + step)).
 
 Definition clip_region (a : nat) (min_val max_val : Q) (r : region) : res region :=
   mk_region (set_nth a (Qmax min_val (nth a (pmin r) 0)) (pmin r))
             (set_nth a (Qmin max_val (nth a (pmax r) 0)) (pmax r)) None None default_tf.
 
+Definition sel_step (m : mesh) (a : nat) : Q := nth a (cell m) 0 / 2.
+
 Definition sel_bounds (m : mesh) (a : nat) (x1 x2 : Q) : res (Q * Q) :=
   let xa := Qmin x1 x2 in let xb := Qmax x1 x2 in
   do s1 <- snap m a xa;
   do s2 <- snap m a xb;
-  let step := nth a (cell m) 0 / 2 in
+  let step := sel_step m a in
   OK (s1 - step, s2 + step).
 
 Definition sel_range_tol (tol : Q) (m : mesh) (a : nat) (x1 x2 : Q) : res mesh :=
@@ -179,7 +183,7 @@ Definition sel_range_tol (tol : Q) (m : mesh) (a : nat) (x1 x2 : Q) : res mesh :
   do mm <- sel_bounds m a x1 x2;
   let min_val := fst mm in let max_val := snd mm in
   let r := reg m in
-  let kept := filter (fun nr => range_keeps a min_val max_val (snd nr)) (subs m) in
+  let kept := filter (fun nr => range_keeps a (sel_step m a) min_val max_val (snd nr)) (subs m) in
   do subs' <- mapres (fun nr : string * region =>
                  do s <- clip_region a min_val max_val (snd nr); OK (fst nr, s)) kept;
   do r' <- mk_region (set_nth a min_val (pmin r)) (set_nth a max_val (pmax r))
